@@ -27,6 +27,7 @@ func main() {
 	var overlays multi
 	flag.Var(&overlays, "overlay", "file=replacement (repeatable)")
 	list := flag.Bool("list", false, "print the registered packs as JSON")
+	writeBaseline := flag.Bool("write-baseline", false, "write <verif>/baseline_funcs.json: the function declarations of the tree the rules were written against")
 	flag.Parse()
 	if *list {
 		var out []map[string]any
@@ -36,6 +37,22 @@ func main() {
 		}
 		b, _ := json.MarshalIndent(out, "", " ")
 		fmt.Println(string(b))
+		return
+	}
+	if *writeBaseline {
+		abs, _ := filepath.Abs(*repo)
+		p, err := core.Load(abs, nil, *goarch)
+		if err != nil {
+			fmt.Fprintln(os.Stderr, err)
+			os.Exit(2)
+		}
+		keys := core.DeclKeys(p.All)
+		b, _ := json.MarshalIndent(keys, "", " ")
+		if err := os.WriteFile(filepath.Join(*verif, "baseline_funcs.json"), b, 0o644); err != nil {
+			fmt.Fprintln(os.Stderr, err)
+			os.Exit(2)
+		}
+		fmt.Printf("%d function declarations\n", len(keys))
 		return
 	}
 	start := time.Now()
@@ -65,6 +82,18 @@ func main() {
 		ov[parts[0]] = b
 	}
 	abs, _ := filepath.Abs(*repo)
+	// normalisation: helpers that are new relative to the baseline tree are inlined at their call sites
+	var normNotes []string
+	if b, err := os.ReadFile(filepath.Join(*verif, "baseline_funcs.json")); err == nil && os.Getenv("VCHECK_NO_NORMALIZE") == "" {
+		var keys []string
+		if json.Unmarshal(b, &keys) == nil {
+			base := map[string]bool{}
+			for _, k := range keys {
+				base[k] = true
+			}
+			ov, normNotes = core.Normalize(abs, ov, *goarch, base)
+		}
+	}
 	p, err := core.Load(abs, ov, *goarch)
 	if err != nil {
 		fmt.Fprintf(os.Stderr, "CHECKER-ERROR property=%s load failed: %v\n", *prop, err)
@@ -75,6 +104,12 @@ func main() {
 	r.Explanation = pack.Expl
 	r.RuleText = pack.Rule
 	r.Assumptions = append(r.Assumptions, pack.Assumptions...)
+	r.Notes = append(r.Notes, normNotes...)
+	if os.Getenv("VCHECK_LIST") != "" {
+		for _, n := range normNotes {
+			fmt.Println("NORMALISE", n)
+		}
+	}
 	r.Count("packages", p.NumPkgs)
 	r.Count("production functions", len(p.SrcFuncs()))
 	r.Floor("packages loaded", p.NumPkgs, 80)
@@ -127,7 +162,7 @@ func main() {
 			clean = false
 		}
 	}
-	if clean && len(ov) == 0 && os.Getenv("VCHECK_NO_MUTANTS") == "" {
+	if clean && len(overlays) == 0 && os.Getenv("VCHECK_NO_MUTANTS") == "" {
 		ms, fails := runMutants(*verif, abs, *prop, *tier, base)
 		extra["mutants"] = ms
 		det, app := 0, 0
